@@ -82,6 +82,9 @@ def realistic_fault(kind, paths):
             while f is not None and depth < 12:
                 if f.f_code.co_name == 'makedirs' and ('frozen os' in f.f_code.co_filename or f.f_code.co_filename.endswith('os.py')):
                     return False
+                if f.f_code.co_name == 'mkdir' and 'pathlib' in f.f_code.co_filename and f.f_locals.get('exist_ok'):
+                    # pathlib.Path.mkdir(exist_ok=True) treats any OSError on an existing directory the same way
+                    return False
                 f = f.f_back
                 depth += 1
             return 'existing'
